@@ -49,6 +49,39 @@ func (x *c20SX) model(fn *types.Func, call *ast.CallExpr, recv *c20V, args []c20
 		switch pkg + "." + name {
 		case "fmt.Sprintf":
 			return x.sprintf(call, args), true
+		case "fmt.Sprint":
+			return x.sprint(call, args), true
+		case "fmt.Fprintf", "fmt.Fprint":
+			if len(args) >= 1 && args[0].k == c20kRef {
+				text := x.sprint(call, args[1:])
+				if fn.Name() == "Fprintf" {
+					text = x.sprintf(call, args[1:])
+				}
+				if x.builderWrite(args[0], text, st) {
+					return c20V{k: c20kTuple, vs: []c20V{c20Unknown("bytes written"), {k: c20kNil}}}, true
+				}
+			}
+		case "errors.As":
+			// the package's errors do not wrap: As is the type test of the target's type
+			if len(args) == 2 && args[1].k == c20kRef {
+				want := args[1].obj.Type()
+				switch e := args[0]; {
+				case e.k == c20kNil, e.k == c20kErr && e.typ == nil:
+					return c20V{k: c20kBool, b: false}, true
+				case e.k == c20kErr:
+					vt := e.typ
+					if e.b {
+						vt = types.NewPointer(e.typ)
+					}
+					if types.Identical(vt, want) {
+						st.env[args[1].obj] = e
+						return c20V{k: c20kBool, b: true}, true
+					}
+					if _, isIface := want.Underlying().(*types.Interface); !isIface {
+						return c20V{k: c20kBool, b: false}, true
+					}
+				}
+			}
 		case "fmt.Errorf", "errors.New":
 			return c20V{k: c20kErr, tag: "new"}, true
 		case "strings.Join":
